@@ -108,6 +108,9 @@ Check ==
     [] O.op = "map"     -> One(OpMap(st, MapName(O.a), PolOf(R[1])))
     [] O.op = "toowned" -> One(OpToOwned(st, PolOf(R[1])))
     [] O.op = "single"  -> One(OpSingle(st, PolOf(R[1])))
+    [] O.op = "iterp"   ->      \* a = which iterator, b = chunk size, ls = the protocol steps
+         Res((IF IterTotOk(st, O.a, O.b, Ev.tot) /\ ProtoOk(IterItems(st, lab, O.a, O.b, Ev.tot), Ev.tot, O.ls, Ev.out, 0)
+                THEN {} ELSE {"iterator-protocol"}) \cup CountIs(0), st)
     [] O.op = "siter"   -> Res((IF Ev.pairs = SamplePairs(st, lab) THEN {} ELSE {"pairs"}) \cup CountIs(0), st)
 
 PickOk == Ev.pick = (IF Len(R) = 0 THEN -1 ELSE O.pick % Len(R))
@@ -126,7 +129,7 @@ TOp ==
   /\ OpEvOk /\ PickOk
   /\ \E chk \in {Check} :                                 \* (evaluated once)
        /\ chk.why = {}
-       /\ IF O.op # "siter" /\ Ev.pick = -1
+       /\ IF O.op \notin {"siter", "iterp"} /\ Ev.pick = -1
             THEN Adv(st, "nores", depth + 1)             \* nothing to continue with: a "stop" event must follow
             ELSE Adv(chk.next, "op", depth + 1)
 
